@@ -48,6 +48,33 @@ func init() {
 			fmt.Printf("results=%v err=%q panicked=%q gopanic=%v insts=%d\n", res.Results, trunc(res.Err, 200), res.Panicked, res.GoPanic, res.Insts)
 		}
 	}
+	// `c07 twins SEED N OUT`: N generated programs with their twins only (false-alarm hunting on the clean tree)
+	extraCmds["twins"] = func(args []string) {
+		seed, n := uint64(1), 1000
+		fmt.Sscan(args[0], &seed)
+		fmt.Sscan(args[1], &n)
+		w, err := lib.NewWriter(args[2], "C07", "dev", seed, header, "case", 60)
+		if err != nil {
+			panic(err)
+		}
+		c := &ctx{w: w, rejected: map[string]int{}}
+		r := lib.NewRand(seed).Fork()
+		for i := 0; i < n; i++ {
+			size := 25 + r.Intn(50)
+			fr := r.Fork()
+			saved := *fr
+			src := genProgram(fr, size)
+			c.process(input{Kind: "src", Src: src, Run: true}, src, "gen", "generated", nil, nil)
+			c.twinsOf(i, saved, size, src)
+		}
+		w.Close()
+		fmt.Printf("twins: runs=%d compared=%d incomparable=%d rejected=%d regkeys=%d go_violations=%d\n", c.twin.Runs, c.twin.Compared, c.twin.Incomparable, c.twin.Rejected, c.twin.RegKeys, len(w.Meta.GoViolations))
+		for i, g := range w.Meta.GoViolations {
+			if i < 5 {
+				fmt.Println(trunc(fmt.Sprint(g), 600))
+			}
+		}
+	}
 	extraCmds["gen"] = func(args []string) {
 		seed, n, show := uint64(1), 1, -1
 		fmt.Sscan(args[0], &seed)
